@@ -4,7 +4,8 @@
 (* guarded by PYMININEC_VERIF) against the pipeline of Cmdline.tla: stages  *)
 (* are entered in the order StageNames, none is skipped, the four stages of *)
 (* a frequency step repeat; a run that ends with a diagnostic or a usage    *)
-(* error has not entered the frequency loop (DiagStopsEarly on real         *)
+(* error has printed nothing (it stopped before the loop or in the first    *)
+(* step before its field / print stages: DiagStopsEarly on real             *)
 (* executions: nothing of the report precedes a diagnostic), a run that     *)
 (* ends with a report ends in step_print.  Many traces are batched in one   *)
 (* TLC run (tid selects the trace, l the position; registers per trace:     *)
@@ -21,21 +22,22 @@ Idx(name) == CHOOSE k \in 1..NStages : StageNames[k] = name
 LoopFirst == Idx("step_setf")
 LoopLast == Idx("step_print")
 
-VARIABLES tid, l, stage
-vars == <<tid, l, stage>>
+VARIABLES tid, l, stage, printed     \* printed: a frequency step has reached its print stage
+vars == <<tid, l, stage, printed>>
 Tr == Traces[tid].st
 
-TInit == tid \in 1..NT /\ l = 1 /\ stage = 0
+TInit == tid \in 1..NT /\ l = 1 /\ stage = 0 /\ printed = FALSE
 Enter(k) == \/ k = stage + 1 /\ k <= LoopLast                 \* the next stage of the pipeline
             \/ stage = LoopLast /\ k = LoopFirst               \* the next frequency step
 TNext == /\ l <= Len(Tr)
          /\ \E k \in 1..NStages : StageNames[k] = Tr[l] /\ Enter(k) /\ stage' = k
+                                   /\ printed' = (printed \/ k = LoopLast)
          /\ l' = l + 1 /\ tid' = tid
 TSpec == TInit /\ [][TNext]_vars
 
 \* property codes, evaluated when the whole trace has been consumed
 AtEnd == l = Len(Tr) + 1
-Code == IF AtEnd /\ Traces[tid].end \in {"diag", "usage", "diag-malformed"} /\ stage >= LoopFirst THEN 1
+Code == IF AtEnd /\ Traces[tid].end \in {"diag", "usage", "diag-malformed"} /\ (printed \/ stage > LoopFirst + 1) THEN 1
         ELSE IF AtEnd /\ Traces[tid].end = "report" /\ stage # LoopLast THEN 2
         ELSE 0
 Track == /\ TLCSet(tid, IF TLCGet(tid) < l THEN l ELSE TLCGet(tid))
